@@ -6,7 +6,7 @@ import typing
 
 from ..cfg import CFG
 from ..core import AnalysisError, own_nodes, parent, short, unparse
-from ..rules import idx, defs, dsp, exc, lint, nul
+from ..rules import shape, idx, defs, dsp, exc, lint, nul
 from ..typing_lite import Typer
 from . import c04, c11, common
 
@@ -257,6 +257,8 @@ def run(ctx):
   ncp = nul.check_sources(ctx, [m_ for m_ in ctx.ix.cls("ttconv.stl.datafile:DataFile").methods.values() if m_.name != "__init__"], nul.NullSources(fields={"cur_p_element"}), rule="NUL-field")
   ctx.floor("NUL-field", "dereferences of DataFile.cur_p_element", ncp, 3)
   check_filtered_bulk_insert(ctx)
+  nfp = shape.check_fresh_per_iteration(ctx, common.funcs(ctx, common.ISD_FILTERS + common.READERS + ["ttconv.filters.doc.lcd", "ttconv.isd"]))
+  ctx.floor("FRESH", "elements pushed inside loops", nfp, 5)
   nl = idx.check_lookahead(ctx, common.funcs(ctx, common.READERS + common.WRITERS + ['ttconv.isd']))
   ctx.note(f'IDX-lookahead: {nl} look-ahead subscripts in reader / writer modules')
   # EXC
